@@ -128,7 +128,7 @@ Qed.
 
 Lemma inv_push d vals x : Inv d vals -> td_needs_compress_on_update d = false -> Inv (td_push d x) (vals ++ [x]).
 Proof.
-  intros I Hn. unfold td_needs_compress_on_update in Hn. apply Z.eqb_neq in Hn.
+  intros I Hn. unfold td_needs_compress_on_update in Hn. apply Z.leb_gt in Hn.
   destruct (omin_spec (td_min d) x) as (mn & Emn & A1 & A2 & A3).
   destruct (omax_spec (td_max d) x) as (mx & Emx & B1 & B2 & B3).
   constructor; unfold td_push; cbn [td_cw td_cs td_min td_max td_buf td_k].
@@ -332,12 +332,12 @@ Proof.
   - contradiction.
   - apply inv_push; auto.
   - specialize (IHreach HP). apply inv_push.
-    + apply inv_compress; auto. unfold td_needs_compress_on_update in H0. apply Z.eqb_eq in H0.
+    + apply inv_compress; auto. unfold td_needs_compress_on_update in H0. apply Z.leb_le in H0.
       intros E. rewrite E in H0. cbn [length] in H0. pose proof (buf_limit_pos _ (inv_k _ _ IHreach)). lia.
     + unfold td_needs_compress_on_update, td_compress_with.
       destruct (td_buf d) eqn:Eb.
-      * unfold td_needs_compress_on_update in H0. rewrite Eb in H0. apply Z.eqb_eq in H0. cbn in H0. pose proof (buf_limit_pos _ (inv_k _ _ IHreach)). lia.
-      * unfold adopt. cbn [td_buf td_k length]. apply Z.eqb_neq. pose proof (buf_limit_pos _ (inv_k _ _ IHreach)). lia.
+      * unfold td_needs_compress_on_update in H0. rewrite Eb in H0. apply Z.leb_le in H0. cbn in H0. pose proof (buf_limit_pos _ (inv_k _ _ IHreach)). lia.
+      * unfold adopt. cbn [td_buf td_k length]. apply Z.leb_gt. pose proof (buf_limit_pos _ (inv_k _ _ IHreach)). lia.
   - auto.
   - apply inv_compress; auto.
   - destruct HP as [HP1 HP2]. rewrite (inv_empty_vals o (values h2) (IHreach2 HP2) H1), app_nil_r. auto.
